@@ -7,31 +7,38 @@ Correspondence: the REAL `psutil._psposix.wait_pid`, `psutil.Process.wait` (thro
 virtual environment: `os.waitpid`, the `_timer/_sleep/_pid_exists/_waitpid` default parameters of
 `wait_pid`, `psutil._timer` and the procfs behind `Process.is_running()` are served from a
 simulated kernel in which time is a `fractions.Fraction` and only `sleep` (and a blocking
-`waitpid`) advance it; every sleep is logged. The same environment goes to the Lean driver, which
+`waitpid`) advance it; every sleep is logged. (Seeded round 5) The liveness probe is NOT replaced: whatever
+`_pid_exists` the code hands to / defaults in `wait_pid` runs for real over the simulated kernel's `os.kill`
+and over the fake procfs tree, and every environment may carry a procfs VIEW that does not list the (living)
+process for a while (entry removed = hidepid, or `psutil.PROCFS_PATH` pointed at another tree). The same environment goes to the Lean driver, which
 answers with the model's observation and with the Spec clauses violated by the model's and by the
 implementation's observation.
 """
 import ast
 import os
+import shutil
 import subprocess
 import sys
+import tempfile
 from fractions import Fraction as Fr
 
 from harness.common import extract, fakeproc
 from harness.common.extract import NotRecognised
 
 PROP = "C15"
-DRIVER_MODULES = ["PsutilModel.Model.C15Gen", "PsutilModel.Model.C15R2", "PsutilModel.Model.C15R3", "PsutilModel.Spec.C15"]
+DRIVER_MODULES = ["PsutilModel.Model.C15Gen", "PsutilModel.Model.C15R2", "PsutilModel.Model.C15R3", "PsutilModel.Model.C15Probe",
+                  "PsutilModel.Spec.C15"]
 NEEDS_EXT = True
 TRUSTED = [
     "C15 environment: system calls cost zero virtual time (only _sleep and a blocking waitpid advance the clock); an interrupted waitpid returns at once; doubles are modelled by exact rationals (a logged float sleep must be the double nearest to the model's rational)",
     "C15 wait status words follow glibc's W* macros (transcribed in Model/C15.lean, checked against os.WIF*/os.W* on all 65 536 words on every run); the set iteration order inside wait_procs is an arbitrary permutation in the theorems and is fed from the observed order in the correspondence",
     "C15 Process objects are built on a fake procfs (harness/common/fakeproc.py); Process.is_running() is the real code reading that procfs, which the simulated kernel updates when a non-child ends",
     "C15 set(procs) keeps the first inserted of several equal elements (CPython set semantics; checked on every run by the identity observations); an unhashable item is a list",
+    "C15 liveness: os.kill(pid, 0) as seen by psutil/_psposix.py, psutil/__init__.py and psutil/_pslinux.py is the simulated kernel's process table (ESRCH / success / EPERM for a foreign process); the procfs tree psutil reads is a VIEW of that table which, per case, does not list a living process during [hideAt, showAt) — realised by removing its entry (hidepid) or by pointing psutil.PROCFS_PATH at a second tree (re-pointed after the object was created); a view never lists a PID the kernel does not have",
     "C15 psutil.Popen objects are built by the real Popen.__init__ with subprocess.Popen replaced by a stub (pid, returncode=None, spawns nothing); subprocess's own poll() is emulated by the harness (reaps the simulated child, stores WEXITSTATUS / -WTERMSIG as CPython's _handle_exitstatus does)",
 ]
 MANIFEST = {
-    "level_text": "Machine-checked Lean 4 proofs over a virtual-time model (exact rationals, fuelled loops) of _psposix.wait_pid, Process.wait, psutil.Popen.wait (psutil's wrapper only) and psutil.wait_procs incl. its argument checks, for EVERY exit instant, timeout, status word, EINTR pattern, set-iteration order and number of processes: never early, status decoding = wait(2) encoding for all exit codes 0-255 and signals 1-126 (with/without core), TimeoutExpired only at/after the deadline carrying seconds/pid and less than one 40 ms poll late, a process that ended by the deadline (in particular strictly between the last poll and the deadline) is never reported as timed out, sleep schedule min(0.1ms*2^n, 40ms), timeout=0 never sleeps, negative timeout -> ValueError, PID 0 -> ValueError with nothing cached, waiting for oneself can only time out, cached later calls, termination with a timeout (explicit fuel bound), EINTR cannot change a returned result; Popen.wait = Process.wait while returncode is unset, stores the returned status in both layers, answers from returncode at once afterwards; wait_procs partition / callback exactly once / returncode / gone-really-ended / alive-really-running at the return instant / return before deadline+40ms / termination with a timeout / ValueError then TypeError argument checks before anything else. Partial: 'TimeoutExpired only with the process still alive' is proved for calls whose last waitpid was not interrupted, with a proved counterexample (EINTR at the deadline) recorded as a known finding and a proof (C15_eintr_no_repair) that no waitpid-polling procedure can meet both clauses under persistent EINTR; the EINTR-at-the-deadline case (C15-eintr-deadline) is the one known finding left; 'negative timeout -> ValueError' for Popen.wait is proved at full strength for the code as it is now (C15_popen_wait_negative, through the obligation cfg_popen_validates_first), the code as found answered from a stored returncode first (proved counterexample C15_popen_wait_negative_counterexample; fixed in /repo by 3859330); syscalls cost zero virtual time. Second extension: wait_procs over psutil.Popen objects and mixed Process/Popen lists is PROVED to be wait_procs over Process objects in which a stored subprocess returncode sits in _exitcode (simulation theorem C15_wait_procs_mixed_is_wait_procs through every loop), so partition / callback once / returncode / gone-ended / deadline hold for them (C15_wait_procs_mixed); of several equal-but-not-identical objects set(procs) keeps the FIRST (C15_set_keeps_first: it alone is waited on, gets returncode, is called back, is returned); an unhashable item is a TypeError after the timeout validation (C15_wait_procs_arguments_unhashable); 'callback exactly once' is proved from ANY reachable intermediate state for ANY number of further passes, with or without timeout (C15_callback_once_any_passes[_no_timeout]); system calls that take time: a costed model of wait_pid (every _timer/waitpid/_pid_exists/_sleep call overshoots by cost k <= delta) equals the zero-cost model for delta = 0 (C15_costed_zero) and satisfies every bound with 40 ms replaced by 40 ms + 5*delta, never-early and not-before-the-deadline unchanged, 'still alive' weakened to 'alive delta before the raise' (C15_costed_bounds). Tied to the code by 16 translator facts (0.0001, *2, 0.04, check-before-sleep, >=, >= 0 validation, 1.0/len(alive), pid<=0 check, callable check, the three-part shape of Popen.wait, `for proc in alive` / `alive = alive - gone` in every pass, `alive = set(procs)` after the validation) feeding the proof obligations cfg_good / cfg_popen_validates_first / cfg_wait_procs_shape, by a differential run of the real functions over a virtual clock comparing result/exception fields, full sleep log, return instant, callback log, subprocess returncode, identity of the objects returned / called back / waited on, the per-call cost sequence of costed runs (400 quick / 20 000 thorough, real wait_pid vs the costed model), by an exhaustive sweep of all 65 536 status words and by the exhaustive enumeration of 2-3 processes x exit pass (1, 2, 3, never) x timeout (None, 50 ms, 3.5 s) = 196 wait_procs runs with a callback.",
+    "level_text": "Machine-checked Lean 4 proofs over a virtual-time model (exact rationals, fuelled loops) of _psposix.wait_pid, Process.wait, psutil.Popen.wait (psutil's wrapper only) and psutil.wait_procs incl. its argument checks, for EVERY exit instant, timeout, status word, EINTR pattern, set-iteration order and number of processes: never early, status decoding = wait(2) encoding for all exit codes 0-255 and signals 1-126 (with/without core), TimeoutExpired only at/after the deadline carrying seconds/pid and less than one 40 ms poll late, a process that ended by the deadline (in particular strictly between the last poll and the deadline) is never reported as timed out, sleep schedule min(0.1ms*2^n, 40ms), timeout=0 never sleeps, negative timeout -> ValueError, PID 0 -> ValueError with nothing cached, waiting for oneself can only time out, cached later calls, termination with a timeout (explicit fuel bound), EINTR cannot change a returned result; Popen.wait = Process.wait while returncode is unset, stores the returned status in both layers, answers from returncode at once afterwards; wait_procs partition / callback exactly once / returncode / gone-really-ended / alive-really-running at the return instant / return before deadline+40ms / termination with a timeout / ValueError then TypeError argument checks before anything else. Partial: 'TimeoutExpired only with the process still alive' is proved for calls whose last waitpid was not interrupted, with a proved counterexample (EINTR at the deadline) recorded as a known finding and a proof (C15_eintr_no_repair) that no waitpid-polling procedure can meet both clauses under persistent EINTR; the EINTR-at-the-deadline case (C15-eintr-deadline) is the one known finding left; 'negative timeout -> ValueError' for Popen.wait is proved at full strength for the code as it is now (C15_popen_wait_negative, through the obligation cfg_popen_validates_first), the code as found answered from a stored returncode first (proved counterexample C15_popen_wait_negative_counterexample; fixed in /repo by 3859330); syscalls cost zero virtual time. Second extension: wait_procs over psutil.Popen objects and mixed Process/Popen lists is PROVED to be wait_procs over Process objects in which a stored subprocess returncode sits in _exitcode (simulation theorem C15_wait_procs_mixed_is_wait_procs through every loop), so partition / callback once / returncode / gone-ended / deadline hold for them (C15_wait_procs_mixed); of several equal-but-not-identical objects set(procs) keeps the FIRST (C15_set_keeps_first: it alone is waited on, gets returncode, is called back, is returned); an unhashable item is a TypeError after the timeout validation (C15_wait_procs_arguments_unhashable); 'callback exactly once' is proved from ANY reachable intermediate state for ANY number of further passes, with or without timeout (C15_callback_once_any_passes[_no_timeout]); system calls that take time: a costed model of wait_pid (every _timer/waitpid/_pid_exists/_sleep call overshoots by cost k <= delta) equals the zero-cost model for delta = 0 (C15_costed_zero) and satisfies every bound with 40 ms replaced by 40 ms + 5*delta, never-early and not-before-the-deadline unchanged, 'still alive' weakened to 'alive delta before the raise' (C15_costed_bounds). Tied to the code by 16 translator facts (0.0001, *2, 0.04, check-before-sleep, >=, >= 0 validation, 1.0/len(alive), pid<=0 check, callable check, the three-part shape of Popen.wait, `for proc in alive` / `alive = alive - gone` in every pass, `alive = set(procs)` after the validation) feeding the proof obligations cfg_good / cfg_popen_validates_first / cfg_wait_procs_shape, by a differential run of the real functions over a virtual clock comparing result/exception fields, full sleep log, return instant, callback log, subprocess returncode, identity of the objects returned / called back / waited on, the per-call cost sequence of costed runs (400 quick / 20 000 thorough, real wait_pid vs the costed model), by an exhaustive sweep of all 65 536 status words and by the exhaustive enumeration of 2-3 processes x exit pass (1, 2, 3, never) x timeout (None, 50 ms, 3.5 s) = 196 wait_procs runs with a callback. Seeded round 5 (WHICH liveness probe is asked): the model carries a procfs VIEW per process (listed / not listed over time, independent of the kernel's truth) and a Probe (kill | procfs) derived from 3 new translator facts (the ECHILD branch polls `_pid_exists(pid)`; its default is _psposix.pid_exists whose only call is os.kill(pid, 0); _pslinux.Process.wait hands wait_pid no hook) under the obligation cfg_nonchild_probe; C15_wait_any_view / C15_never_early_any_view / C15_process_wait_any_view / C15_hidden_alive_only_times_out: for EVERY view the wait observes exactly what the view-free model observes, so every single-call theorem holds whatever procfs hides, in particular no result while the process is alive-but-hidden; C15_check_gone_any_view: one check_gone of wait_procs (whose is_running() reads procfs) is view-independent from every state satisfying the loop invariant; C15_never_early_procfs_probe_counterexample: a poll that asks the procfs view returns None at once for a live hidden process. Correspondence: the real pid_exists / whatever hook is passed runs over a simulated os.kill and a fake procfs whose entries follow per-case views (hide instant before the call / at, just before, just after a poll, the deadline, the exit; shown again or not; hidepid+EPERM, hidepid, PROCFS_PATH re-pointed) in 25 % of the single-process and 20 % of the wait_procs processes, plus an exhaustive family of 1 440 view cases through Process.wait, Popen.wait and wait_procs.",
     "level_note": "Trusted: Lean kernel + {propext, Classical.choice, Quot.sound}; the translator; the correspondence harness and its simulated kernel; zero-cost syscalls; doubles = exact rationals; glibc W* macros as transcribed; subprocess.Popen replaced by a stub holding pid/returncode (its own poll() emulated as CPython's _handle_exitstatus).",
     "technique": "Lean 4 invariants over fuelled loops in virtual time (Rat) + translator-fed proof obligation + differential correspondence under a virtual clock with exhaustive status-word sweep",
     "design_ref": "DESIGN.md §5 C15",
@@ -39,6 +46,7 @@ MANIFEST = {
 ASSUMPTIONS = [
     "system calls take zero virtual time in every theorem except C15_costed_zero / C15_costed_bounds (wait_pid with per-call overshoot <= delta: 40 ms + 5*delta); wait_procs with costed calls is not modelled (its last attempt alone adds up to 4 calls per surviving process)",
     "Process.is_running() answers from the simulated kernel (a non-child that ended is gone from procfs; PID reuse is C01/C02's subject)",
+    "procfs views only HIDE: the tree under PROCFS_PATH never lists a PID the kernel (kill / waitpid) does not have — a stale or foreign-namespace entry is PID reuse, C01/C02's subject; the wait_procs MODEL is view-free (proved per check_gone step, C15_check_gone_any_view; the whole real wait_procs is compared with it under hidden views on every run)",
 ]
 
 FINDING_EINTR = "C15-eintr-deadline"
@@ -496,6 +504,75 @@ def _alive_set_fact(tree):
     return alive == ("set(procs)", True) and gone == "set()"
 
 
+def _probe_facts(posix, linux):
+    """(seeded round 5) WHICH liveness probe the non-child poll of wait_pid asks. Three independent, total facts:
+       poll    — the `except ChildProcessError:` branch is `while _pid_exists(pid): interval = sleep(interval)` ; `return None`
+       default — the default of wait_pid's `_pid_exists` parameter is the module's `pid_exists`, defined once, never
+                 rebound, undecorated, whose ONLY call is `os.kill(pid, 0)`
+       linux   — `_pslinux.Process.wait` is `return _psposix.wait_pid(self.pid, timeout, self._name)`: no hook handed over"""
+    out = {"poll": False, "default": False, "linux": False}
+    try:
+        fn = extract.find_def(posix, "wait_pid")
+    except Exception:  # noqa: BLE001
+        fn = None
+    if fn is not None:
+        try:
+            hs = [h for n in ast.walk(fn) if isinstance(n, ast.Try) for h in n.handlers
+                  if h.type is not None and "ChildProcessError" in extract.unparse(h.type)]
+            if len(hs) == 1:
+                b = hs[0].body
+                out["poll"] = bool(
+                    len(b) == 2 and isinstance(b[0], ast.While) and not b[0].orelse
+                    and extract.unparse(b[0].test) == "_pid_exists(pid)"
+                    and [extract.unparse(x) for x in b[0].body] == ["interval = sleep(interval)"]
+                    and isinstance(b[1], ast.Return) and (b[1].value is None or extract.unparse(b[1].value) == "None"))
+        except Exception:  # noqa: BLE001
+            out["poll"] = False
+        try:
+            a = fn.args
+            names = [x.arg for x in a.args]
+            dflt = dict(zip(names[len(names) - len(a.defaults):], a.defaults))
+            dflt.update({k.arg: v for k, v in zip(a.kwonlyargs, a.kw_defaults) if v is not None})
+            d = dflt.get("_pid_exists")
+            defs = [st for st in ast.walk(posix) if isinstance(st, (ast.FunctionDef, ast.AsyncFunctionDef, ast.ClassDef))
+                    and st.name == "pid_exists"]
+            rebound = False
+            for st in ast.walk(posix):
+                tg = []
+                if isinstance(st, ast.Assign):
+                    tg = st.targets
+                elif isinstance(st, (ast.AugAssign, ast.AnnAssign)):
+                    tg = [st.target]
+                elif isinstance(st, (ast.Import, ast.ImportFrom)):
+                    rebound = rebound or any((al.asname or al.name) == "pid_exists" for al in st.names)
+                for t in tg:
+                    for nm in ast.walk(t):
+                        if isinstance(nm, ast.Name) and nm.id == "pid_exists":
+                            rebound = True
+                if isinstance(st, ast.Global) and "pid_exists" in st.names:
+                    rebound = True
+            if isinstance(d, ast.Name) and d.id == "pid_exists" and len(defs) == 1 and isinstance(defs[0], ast.FunctionDef) \
+                    and defs[0] in posix.body and not defs[0].decorator_list and not rebound:
+                calls = [extract.unparse(c) for c in ast.walk(defs[0]) if isinstance(c, ast.Call)]
+                out["default"] = calls == ["os.kill(pid, 0)"]
+        except Exception:  # noqa: BLE001
+            out["default"] = False
+    try:
+        lw = extract.find_def(linux, "wait", cls="Process")
+        b = _body(lw)
+        if len(b) == 1 and isinstance(b[0], ast.Return) and isinstance(b[0].value, ast.Call):
+            c = b[0].value
+            out["linux"] = bool(
+                extract.dotted(c.func) in ("_psposix.wait_pid", "wait_pid")
+                and [extract.unparse(x) for x in c.args] == ["self.pid", "timeout", "self._name"][:len(c.args)]
+                and len(c.args) >= 1
+                and all(k.arg in ("timeout", "proc_name") for k in c.keywords)
+                and not any(isinstance(x, ast.Starred) for x in c.args))
+    except Exception:  # noqa: BLE001
+        out["linux"] = False
+    return out
+
+
 def facts(snap, F):
     posix = extract.parse_module(snap, "_psposix.py")
     init = extract.parse_module(snap, "__init__.py")
@@ -560,6 +637,19 @@ def facts(snap, F):
     F.try_add("goneBeforeCb", "Bool", lambda: extract.lean_bool(_check_gone_order(init)["gone"]),
               "check_gone: `gone.add(proc)` precedes `callback(proc)`")
 
+    # (seeded round 5) which liveness probe the non-child poll asks; obligation cfg_nonchild_probe
+    def pr():
+        if "pr" not in d:
+            d["pr"] = _probe_facts(posix, extract.parse_module(snap, "_pslinux.py"))
+        return d["pr"]
+
+    F.try_add("pollAsksHook", "Bool", lambda: extract.lean_bool(pr()["poll"]),
+              "wait_pid: the ChildProcessError branch is `while _pid_exists(pid): interval = sleep(interval)` followed by `return None`")
+    F.try_add("hookDefaultIsKill", "Bool", lambda: extract.lean_bool(pr()["default"]),
+              "wait_pid: the default of `_pid_exists` is `pid_exists` of _psposix (defined once, never rebound), whose only call is `os.kill(pid, 0)`")
+    F.try_add("linuxWaitPassesNoHook", "Bool", lambda: extract.lean_bool(pr()["linux"]),
+              "_pslinux.Process.wait: `return _psposix.wait_pid(self.pid, timeout, self._name)` — no hook (`_pid_exists`, `_waitpid`, …) is handed over")
+
 
 # ------------------------------------------------------------------------------ simulated kernel
 
@@ -622,6 +712,8 @@ class World:
         self.waited_ids = []      # id() of the object each of those calls was made on
         self.oscalls = 0
         self.last_wait_eintr = False
+        self.hidden_polls = 0     # kill(pid, 0) answers "there" while the procfs view does not list the process
+        self.probes = []          # signal numbers of every os.kill made (0 = existence probe)
 
     def add(self, pid, env):
         self.procs[pid] = {"kind": env["kind"], "status": env.get("status", 0),
@@ -632,6 +724,14 @@ class World:
                            "stopAt": None if env.get("stopAt") is None else Fr(*env["stopAt"]),
                            "contAt": None if env.get("contAt") is None else Fr(*env["contAt"]),
                            "stop_reported": False, "cont_reported": False}
+        v = env.get("view") or None
+        # (seeded round 5) what the procfs tree shows of the process: not listed during [hideAt, showAt);
+        # how = "hidepid" (the entry disappears from the tree: /proc mounted hidepid=, kill says EPERM or succeeds)
+        #     | "repoint" (psutil.PROCFS_PATH is pointed at another tree which does not list it)
+        self.procs[pid].update(
+            hideAt=None if not v else Fr(*v["hideAt"]),
+            showAt=None if (not v or v.get("showAt") is None) else Fr(*v["showAt"]),
+            how=(v or {}).get("how", "hidepid"), killerr=(v or {}).get("kill", "ok"))
         wc = env.get("wasChild")
         if wc:
             # a child of the caller whose exit status SOMEBODY ELSE collected before the call (another waitpid
@@ -640,6 +740,11 @@ class World:
 
     def ended(self, p):
         return p["exitAt"] is not None and p["exitAt"] <= self.now
+
+    def hidden(self, p):
+        """does the procfs view NOT list the process now (given that it exists)?"""
+        h = p.get("hideAt")
+        return h is not None and h <= self.now and (p["showAt"] is None or self.now < p["showAt"])
 
     # -- entry points handed to psutil
     def timer(self):
@@ -750,7 +855,20 @@ class World:
             self.last_poll = (self.now, False)
             return False
         self.last_poll = (self.now, not self.ended(p))
+        if not self.ended(p) and self.hidden(p):
+            self.hidden_polls += 1
         return not self.ended(p)
+
+    def kill(self, pid, sig):
+        """os.kill as psutil sees it: the kernel's own process table (the truth the property speaks about).
+        ESRCH = no such process; EPERM = there, but somebody else's (then procfs may well hide it: hidepid=)."""
+        self.probes.append(sig)
+        there = self.pid_exists(pid)
+        if not there:
+            raise ProcessLookupError(3, "No such process")
+        if self.procs[pid].get("killerr") == "eperm":
+            raise PermissionError(1, "Operation not permitted")
+        return None
 
     sync_procfs = staticmethod(lambda: None)
 
@@ -768,6 +886,8 @@ class _ModProxy:
 
 STAT_TMPL = "%d (vproc) S 1 %d %d 0 -1 4194304 0 0 0 0 0 0 0 0 20 0 1 0 %d 1000000 100 " \
             "18446744073709551615 0 0 0 0 0 0 0 0 0 0 0 0 17 0 0 0 0 0 0 0 0 0 0 0 0 0 0\n"
+STATUS_TMPL = "Name:\tvproc\nUmask:\t0022\nState:\tS (sleeping)\nTgid:\t%d\nNgid:\t0\nPid:\t%d\nPPid:\t1\n" \
+              "TracerPid:\t0\nUid:\t0\t0\t0\t0\nGid:\t0\t0\t0\t0\nThreads:\t1\n"
 PIDS = list(range(4001, 4009))
 ANY_CHILD_PID = 4001
 
@@ -788,13 +908,25 @@ class Impl:
         self.saved_defaults = px.wait_pid.__defaults__
         names = px.wait_pid.__code__.co_varnames[:px.wait_pid.__code__.co_argcount]
         dnames = names[len(names) - len(self.saved_defaults):]
-        over = {"_waitpid": w.waitpid, "_timer": w.timer, "_sleep": w.sleep, "_pid_exists": w.pid_exists}
+        # (seeded round 5) the liveness probe is NOT replaced: whatever `_pid_exists` the code hands to / defaults in
+        # wait_pid runs for real, over the simulated kernel's `os.kill` and over the fake procfs tree — so that WHICH
+        # probe the code asks is part of what is compared
+        over = {"_waitpid": w.waitpid, "_timer": w.timer, "_sleep": w.sleep}
         px.wait_pid.__defaults__ = tuple(over.get(n, v) for n, v in zip(dnames, self.saved_defaults))
         self.saved = [(px, "os", px.os), (px, "time", px.time), (ps, "_timer", ps._timer)]
-        if hasattr(px, "pid_exists"):
-            self.saved.append((px, "pid_exists", px.pid_exists))
-            px.pid_exists = w.pid_exists
-        px.os = _ModProxy(os, waitpid=w.waitpid)
+        px.os = _ModProxy(os, waitpid=w.waitpid, kill=w.kill)
+        for mod in (ps, getattr(ps, "_psplatform", None)):
+            # psutil/__init__.py and _pslinux.py see the same kernel (everything else of `os` passes through)
+            if mod is not None and getattr(mod, "os", None) is os:
+                self.saved.append((mod, "os", mod.os))
+                mod.os = _ModProxy(os, waitpid=w.waitpid, kill=w.kill)
+        # a second procfs tree which lists other processes but none of the simulated ones ("repoint")
+        self.alt = tempfile.mkdtemp(prefix="psv-c15alt-")
+        for rel, data in (("stat", "cpu  1 1 1 1 1 1 1 1 1 1\nbtime 1700000000\n"), ("1/stat", STAT_TMPL % (1, 1, 1, 101)),
+                          ("1/status", STATUS_TMPL % (1, 1))):
+            os.makedirs(os.path.dirname(os.path.join(self.alt, rel)), exist_ok=True)
+            with open(os.path.join(self.alt, rel), "w") as f:
+                f.write(data)
         px.time = _ModProxy(px.time, monotonic=w.timer, time=w.timer, sleep=w.sleep)
         ps._timer = w.timer
         world = w
@@ -852,20 +984,34 @@ class Impl:
         for obj, name, val in self.saved:
             setattr(obj, name, val)
         self.fp.close()
+        shutil.rmtree(self.alt, ignore_errors=True)
 
     # -- fake procfs follows the simulated kernel
     def ensure_proc(self, pid):
         if pid not in self.present:
             self.fp.write("%d/stat" % pid, STAT_TMPL % (pid, pid, pid, 100 + pid))
+            self.fp.write("%d/status" % pid, STATUS_TMPL % (pid, pid))
             self.present.add(pid)
 
     def sync_procfs(self):
+        """the procfs tree(s) follow the simulated kernel AND each process's view: an entry is there iff the process
+        exists and its view lists it now; a "repoint" view moves psutil.PROCFS_PATH to the other tree instead"""
         w = self.world
+        repoint = False
         for pid, p in w.procs.items():
             gone = p["reaped"] if p["kind"] == "child" else (p["kind"] == "never" or w.ended(p))
-            if pid in self.present and gone:
+            hidden = (not gone) and w.hidden(p)
+            if hidden and p.get("how") == "repoint":
+                repoint = True
+                continue
+            if pid in self.present and (gone or hidden):
                 self.fp.remove(str(pid))
                 self.present.discard(pid)
+            elif pid not in self.present and not gone and not hidden:
+                self.ensure_proc(pid)
+        want = self.alt if repoint else self.fp.root
+        if self.ps.PROCFS_PATH != want:
+            self.ps.PROCFS_PATH = want
 
     def new_world(self, start):
         w = self.world
@@ -873,6 +1019,8 @@ class Impl:
         w.procs = {}
         w.max_sleeps = FUEL
         w.reset_logs()
+        if self.ps.PROCFS_PATH != self.fp.root:
+            self.ps.PROCFS_PATH = self.fp.root
 
     # -- observables
     def outcome(self, fn):
@@ -902,11 +1050,12 @@ class Impl:
         pid = case["pid"]
         # a pid <= 0 names no process: the environment describes a child the caller has (waitpid(-1) would reap it)
         w.add(pid if pid > 0 else ANY_CHILD_PID, case["env"])
+        w.sync_procfs()                 # the procfs tree lists the (living) process unless its view hides it
         tmo = None if case["timeout"] is None else Fr(*case["timeout"])
         out = self.outcome(lambda: self.px.wait_pid(pid, tmo))
         return {"out": out, "ret": jrat(w.now), "sleeps": [jrat(s) for s in w.sleeps],
                 "nwait": w.procs[pid]["nwait"] if pid in w.procs else 0,
-                "last_eintr": w.last_wait_eintr}
+                "last_eintr": w.last_wait_eintr, "hidden_polls": w.hidden_polls}
 
     def run_pwait(self, case):
         """a sequence of `Process.wait(timeout)` calls on one object"""
@@ -937,7 +1086,7 @@ class Impl:
             out = self.outcome(lambda: proc.wait(tmo))
             obs.append({"out": out, "start": jrat(t_start), "ret": jrat(w.now), "sleeps": [jrat(s) for s in w.sleeps],
                         "nwait": w.procs[pid]["nwait"] - n0, "oscalls": w.oscalls,
-                        "last_eintr": w.last_wait_eintr})
+                        "last_eintr": w.last_wait_eintr, "hidden_polls": w.hidden_polls})
             if out["kind"] in ("hang", "fuel"):
                 break
         return obs
@@ -991,7 +1140,7 @@ class Impl:
                 rcj = {"bad": repr(rc)}
             obs.append({"out": out, "start": jrat(t_start), "ret": jrat(w.now), "sleeps": [jrat(s) for s in w.sleeps],
                         "nwait": w.procs[pid]["nwait"] - n0, "oscalls": w.oscalls,
-                        "last_eintr": w.last_wait_eintr, "rc": rcj, "ext": ext,
+                        "last_eintr": w.last_wait_eintr, "hidden_polls": w.hidden_polls, "rc": rcj, "ext": ext,
                         "stored_before": None if before is None else int(before)})
             if out["kind"] in ("hang", "fuel"):
                 break
@@ -1092,7 +1241,7 @@ class Impl:
         flat = [pid for pid, _ in w.calls]
         if out["kind"] != "none":
             return {"kind": "raised", "out": out, "flat": flat, "oscalls": w.oscalls, "ret": jrat(w.now),
-                    "rc0": rc0}
+                    "rc0": rc0, "hidden_polls": w.hidden_polls}
         gone, alive = res["r"]
         rep = {}
         for o in list(gone) + list(alive):
@@ -1141,7 +1290,10 @@ class Impl:
                 "sleeps": [jrat(s) for s in w.sleeps], "calls": calls, "flat": flat,
                 "gone_pos": [pos_of.get(id(o), -1) for o in gone], "alive_pos": [pos_of.get(id(o), -1) for o in alive],
                 "cb_pos": cbpos, "waited_pos": sorted({pos_of.get(i, -1) for i in w.waited_ids}),
-                "twins_untouched": untouched_ok, "touched": touched, "subs": subs, "rc0": rc0, "bad_attr": bad_attr}
+                "twins_untouched": untouched_ok, "touched": touched, "subs": subs, "rc0": rc0, "bad_attr": bad_attr,
+                "hidden_polls": w.hidden_polls,
+                "hidden_alive_at_return": sorted(pid for pid, q in w.procs.items()
+                                                 if q["kind"] != "never" and not q["reaped"] and not w.ended(q) and w.hidden(q))}
 
     def run_waitc(self, case):
         """`_psposix.wait_pid(pid, timeout)` with system calls that take (virtual) time"""
@@ -1269,6 +1421,36 @@ def gen_eintr(rng, timeout, start, exit_at):
     return "always", "always"
 
 
+VIEW_HOW = [("hidepid", "eperm"), ("hidepid", "ok"), ("repoint", "ok")]
+
+
+def gen_view(rng, start, timeout, exit_at, hows=VIEW_HOW):
+    """(seeded round 5) what the procfs tree shows of the process: not listed during [hideAt, showAt). hideAt is placed
+    before the call, exactly at / just before / just after a polling instant, the deadline, the exit instant, or at random;
+    the entry comes back (showAt) in 30 % of the views"""
+    deadline = None if timeout is None else start + timeout
+    r = rng.random()
+    if r < 0.35:
+        hide, fam = start - rng.choice([Fr(1), Fr(1, 1000), Fr(0)]), "from-start"
+    elif r < 0.65:
+        t, how = near(rng, start + POLLS[rng.randrange(0, 12)])
+        hide, fam = t, "poll-" + how
+    elif r < 0.8 and deadline is not None:
+        t, how = near(rng, deadline)
+        hide, fam = t, "deadline-" + how
+    elif r < 0.9 and exit_at is not None:
+        t, how = near(rng, exit_at)
+        hide, fam = t, "exit-" + how
+    else:
+        hide, fam = start + Fr(rng.randrange(0, 20000), 10000), "random"
+    show = None
+    if rng.random() < 0.3:
+        show = hide + rng.choice([I0, 3 * I0, CAP, Fr(1, 2), Fr(rng.randrange(1, 10000), 10000)])
+        fam += "+shown-again"
+    how, kill = rng.choice(hows)
+    return {"hideAt": jrat(hide), "showAt": None if show is None else jrat(show), "how": how, "kill": kill}, fam
+
+
 def jenv(kind, status, exit_at, eintr):
     """`eintr` = list of booleans (calls beyond the list are not interrupted) or "always" """
     d = {"kind": kind, "status": status, "exitAt": None if exit_at is None else jrat(exit_at),
@@ -1324,6 +1506,10 @@ def gen_wait_case(rng):
         env = jenv("never", 0, None, eintr)
         env["wasChild"] = {"status": st, "exitAt": jrat(start - rng.choice([Fr(0), Fr(1, 1000), Fr(3)]))}
         fam = dict(fam, kind="reaped-elsewhere", place="never-existed", status="-")
+    if pid > 0 and env["kind"] in ("child", "nonchild") and rng.random() < 0.25:
+        # (seeded round 5) a procfs view that hides the (living) process: kill(pid, 0) and procfs disagree
+        env["view"], vfam = gen_view(rng, start, timeout, exit_at)
+        fam = dict(fam, view=vfam)
     return {"op": "wait", "env": env, "pid": pid,
             "timeout": None if timeout is None else jrat(timeout), "start": jrat(start), "fuel": FUEL,
             "fam": fam}
@@ -1448,6 +1634,9 @@ def gen_wprocs_case(rng):
         elif er < 0.13:
             eintr = [True] * 3
         p = {"pid": pid, "env": jenv(kind, status, exit_at, eintr)}
+        if kind != "never" and rng.random() < 0.2:
+            # (seeded round 5) per-process procfs view (hidepid: the entry itself disappears; PROCFS_PATH stays)
+            p["env"]["view"], _ = gen_view(rng, start, timeout, exit_at, hows=VIEW_HOW[:2])
         if exit_at is not None and exit_at <= start and rng.random() < 0.3:
             p["prewait"] = True
         procs.append(p)
@@ -1472,6 +1661,8 @@ def gen_wprocs_case(rng):
             "timeout": None if timeout is None else jrat(timeout), "start": jrat(start),
             "hasCb": rng.random() < 0.75, "fuel": FUEL,
             "fam": {"timeout": tfam, "n": n}}
+    if any(p["env"].get("view") for p in procs):
+        case["fam"]["view"] = True
     if rng.random() < 0.06:
         # callback that is neither None nor callable (a negative timeout is still reported first)
         case["hasCb"] = True
@@ -1510,6 +1701,37 @@ def enum_cases():
                             "timeout": None if tmo is None else jrat(tmo), "start": [0, 1], "hasCb": True, "fuel": FUEL,
                             "fam": {"timeout": "enum-" + tname, "n": n, "enum": True,
                                     "passes": ",".join("-" if k is None else str(k) for k in passes)}})
+    return out
+
+
+# ---- exhaustive family (seeded round 5): a procfs view that hides the process, through Process.wait / Popen.wait / wait_procs
+#      kind x exit instant x hide instant x shown again? x timeout x (how the view comes about, what kill answers)
+def view_enum_cases():
+    import itertools
+    out = []
+    start = Fr(0)
+    exits = {"never": None, "before-hide": Fr(1, 20000), "while-hidden": Fr(1, 4000), "later": Fr(1, 200)}
+    hides = {"from-start": Fr(-1), "poll1": POLLS[1], "poll3": POLLS[3]}
+    shows = {"never": None, "2-polls": Fr(1, 5000)}
+    tmos = {"zero": Fr(0), "1ms": Fr(1, 1000), "50ms": Fr(1, 20), "none": None}
+    for op, kind, (en, ex), (hn, hide), (sn, dshow), (tn, tmo), (how, kill) in itertools.product(
+            ("pwait", "popen", "wprocs"), ("nonchild", "child"), exits.items(), hides.items(), shows.items(), tmos.items(), VIEW_HOW):
+        if tmo is None and ex is None:
+            continue                    # would never return
+        if op == "wprocs" and how == "repoint":
+            continue
+        view = {"hideAt": jrat(hide), "showAt": None if dshow is None else jrat(max(hide, start) + dshow), "how": how, "kill": kill}
+        env = dict(jenv(kind, 9 if kind == "child" else 0, ex, []), view=view)
+        fam = {"timeout": "view-enum-" + tn, "kind": kind, "status": "signal" if kind == "child" else "-", "place": "view-enum-" + en,
+               "eintr": "none", "view": "enum-" + hn + ("+shown-again" if dshow is not None else ""), "view_enum": True}
+        jt = None if tmo is None else jrat(tmo)
+        if op == "wprocs":
+            out.append({"op": "wprocs", "procs": [{"pid": 4002, "env": env}], "list": [[4002, 0]], "timeout": jt,
+                        "start": jrat(start), "hasCb": True, "fuel": FUEL, "fam": {"timeout": "view-enum-" + tn, "n": 1, "view": True,
+                                                                                "view_enum": True}})
+        else:
+            out.append({"op": op, "env": env, "pid": 4002, "fuel": FUEL,
+                        "calls": [{"timeout": jt, "at": jrat(start)}, {"timeout": [0, 1], "at": jrat(start + Fr(1, 10))}], "fam": fam})
     return out
 
 
@@ -1565,6 +1787,15 @@ CORPUS = [
     {"op": "wait", "env": dict(jenv("never", 0, None, []), wasChild={"status": 0, "exitAt": [0, 1]}), "pid": 4004,
      "timeout": [1, 2], "start": [1, 1], "fuel": FUEL,
      "fam": {"timeout": "round", "kind": "reaped-elsewhere", "status": "-", "place": "never-existed", "eintr": "none"}},
+    # (seeded round 5) witness of the round: some other process, alive for ever, which the procfs tree does not list
+    # (PROCFS_PATH pointed elsewhere after the object was made / hidepid + EPERM): wait() can only time out
+    {"op": "pwait", "env": dict(jenv("nonchild", 0, None, []), view={"hideAt": [-1, 1], "showAt": None, "how": "repoint", "kill": "ok"}),
+     "pid": 4003, "fuel": FUEL, "calls": [{"timeout": [0, 1], "at": [0, 1]}, {"timeout": [1, 5], "at": [0, 1]}],
+     "fam": {"timeout": "zero", "kind": "nonchild", "status": "-", "place": "never", "eintr": "none", "view": "from-start"}},
+    {"op": "wprocs", "procs": [{"pid": 4004, "env": dict(jenv("nonchild", 0, None, []),
+                                                       view={"hideAt": [-1, 1], "showAt": None, "how": "hidepid", "kill": "eperm"})}],
+     "list": [[4004, 0]], "timeout": [1, 10], "start": [0, 1], "hasCb": True, "fuel": FUEL,
+     "fam": {"timeout": "round", "n": 1, "view": True}},
     # wait_procs with a callback that is not callable
     {"op": "wprocs", "procs": [{"pid": 4001, "env": jenv("child", 0, Fr(0), [])}], "list": [[4001, 0]],
      "timeout": [1, 10], "start": [0, 1], "hasCb": True, "cb": "bad", "fuel": FUEL, "fam": {"timeout": "round", "n": 1, "cb": "bad"}},
@@ -1990,6 +2221,14 @@ def features(case, ob):
         if ob.get("kind") == "ok" and ob.get("cbSeen"):
             f.append("wprocs:callback-time view recorded (returncode%s)" % (
                 " + gone membership" if all(g is not None for _, _, g in ob["cbSeen"]) else ""))
+        if case["fam"].get("view"):
+            f.append("view:wprocs cases with a process the procfs tree hides")
+            if ob.get("hidden_polls"):
+                f.append("view:wprocs kill says alive while procfs hides (>=1 poll)")
+            if ob.get("kind") == "ok" and set(ob.get("hidden_alive_at_return", [])) & set(ob["alive"]):
+                f.append("view:wprocs alive-but-hidden process reported alive")
+            if case["fam"].get("view_enum"):
+                f.append("view:enum")
         if case["fam"].get("enum"):
             f.append("wprocs:enum")
             if ob.get("kind") == "ok":
@@ -2016,6 +2255,17 @@ def features(case, ob):
                 f.append("popen:wait returned None (returncode stays unset)")
     if fam.get("stop"):
         f.append(case["op"] + ":child " + fam["stop"] + " while alive (invisible without WUNTRACED/WCONTINUED)")
+    if case["env"].get("view"):
+        v = case["env"]["view"]
+        f.append("view:" + case["op"] + " cases")
+        f.append("view:hide=" + str(fam.get("view", "?")))
+        f.append("view:how=%s kill=%s" % (v.get("how"), v.get("kill")))
+        if any(o.get("hidden_polls") for o in obs):
+            f.append("view:kill says alive while procfs hides (>=1 poll)")
+            if any(o.get("hidden_polls") and o["out"]["kind"] == "timeout" for o in obs):
+                f.append("view:hidden-alive process -> TimeoutExpired")
+        if fam.get("view_enum"):
+            f.append("view:enum")
     f.append(case["op"] + ":kind=" + fam["kind"])
     f.append(case["op"] + ":timeout=" + fam["timeout"])
     f.append(case["op"] + ":place=" + fam["place"])
@@ -2047,7 +2297,10 @@ def correspond(ctx, res, sweep=True):
                     "psutil.Popen.wait call sequences with subprocess's own poll() interleaved, wait_procs with 1-5 "
                     "processes incl. a non-callable callback); non-trivial = the call slept, timed out, was interrupted, "
                     "was repeated on the same object, addressed PID 0 / the caller, or (wait_procs) made more than one "
-                    "wait call; distinct = distinct canonical cases; plus all 65 536 status words")
+                    "wait call; distinct = distinct canonical cases; plus all 65 536 status words; (seeded round 5) a quarter of "
+                    "the living processes get a procfs view that does not list them from an instant placed before the call / "
+                    "at a poll / the deadline / the exit (kill(pid, 0) and procfs disagree), realised as hidepid or a re-pointed "
+                    "PROCFS_PATH, the liveness probe being whatever the real code asks")
         n = ctx.n(5000, 150000)
         cases = list(CORPUS)
         for i in range(n):
@@ -2078,12 +2331,21 @@ def correspond(ctx, res, sweep=True):
         en = enum_cases()
         evaluate_and_count(ctx, impl, en, res, "enumerated")
         res.count("enum:cases", len(en))
+        # exhaustive (seeded round 5): procfs views hiding the process x kind x exit x hide instant x timeout x realisation
+        ven = view_enum_cases()
+        for a in range(0, len(ven), CH):
+            evaluate_and_count(ctx, impl, ven[a:a + CH], res, "enumerated (procfs views)")
+        res.count("view:enum cases", len(ven))
         if sweep:
             status_sweep(ctx, impl, res)
             res.exhaustive = ("all 65 536 16-bit wait status words through the real wait_pid (WNOHANG and blocking paths) "
                               "against the model's decode, the Spec's cause table and os.WIFEXITED/WEXITSTATUS/WIFSIGNALED/"
                               "WTERMSIG (stopped/continued/garbage words included); wait_procs with a callback for every combination of 2-3 "
                               "processes x the pass in which each exits (1, 2, 3, never) x timeout (None, 50 ms, 3.5 s): 196 cases; "
+                              "procfs views hiding the process: entry point (Process.wait, Popen.wait, wait_procs) x child/non-child x exit "
+                              "(never, before the hide, while hidden, later) x hide instant (before the call, 2nd poll, 4th poll) x shown "
+                              "again or not x timeout (0, 1 ms, 50 ms, None) x realisation (hidepid+EPERM, hidepid, PROCFS_PATH re-pointed): "
+                              "%d cases; " % len(ven) +
                               "other environments are samples")
     finally:
         impl.close()
@@ -2149,6 +2411,13 @@ def _candidates(case):
     best = dict(case, fam=fam)
     cands = []
     if case["op"] in ("wait", "waitc", "pwait", "popen"):
+        v = case["env"].get("view")
+        if v:
+            cands.append(dict(best, env={k: x for k, x in case["env"].items() if k != "view"}))
+            if v.get("showAt") is not None:
+                cands.append(dict(best, env=dict(case["env"], view=dict(v, showAt=None))))
+            if v.get("kill") != "ok" or v.get("how") != "hidepid":
+                cands.append(dict(best, env=dict(case["env"], view=dict(v, kill="ok", how="hidepid"))))
         if has_eintr(case["env"]):
             cands.append(dict(best, env=dict(case["env"], eintr=[], eintrTail=False)))
         if case["op"] in ("pwait", "popen"):
@@ -2166,6 +2435,14 @@ def _candidates(case):
                          list=[x for x in case["list"] if x[0] != pid])
                 if c["list"]:
                     cands.append(c)
+        for i, p in enumerate(case["procs"]):
+            v = p["env"].get("view")
+            if v:
+                def with_env(e, i=i):
+                    return dict(best, procs=[dict(q, env=e) if j == i else q for j, q in enumerate(case["procs"])])
+                cands.append(with_env({k: x for k, x in p["env"].items() if k != "view"}))
+                if v.get("showAt") is not None:
+                    cands.append(with_env(dict(p["env"], view=dict(v, showAt=None))))
         if case["hasCb"]:
             cands.append(dict(best, hasCb=False))
         for i, p in enumerate(case["procs"]):
